@@ -102,7 +102,17 @@ pub fn check_words(words: &[u32], st: &mut Stats, decoded: &dyn Fn() -> String) 
                 // placement of OpLine outside blocks is not fixed by the layout: compare without them
                 st.count("line_outside_block");
             }
-            if let Some(d) = module_diff(&module, &model) {
+            let mut module_cmp = module.clone();
+            if a.line_outside_block {
+                // where an OpLine/OpNoLine outside any block is kept is not fixed by the
+                // logical layout: compare the global section without line instructions
+                model.types_global_values.retain(|i| !crate::refclass::is_location_debug(i.class.opname));
+                module_cmp.types_global_values.retain(|i| !crate::refclass::is_location_debug(i.class.opname));
+            }
+            if a.memory_models > 1 {
+                model.memory_model = module_cmp.memory_model.clone();
+            }
+            if let Some(d) = module_diff(&module_cmp, &model) {
                 let opn = first_misplaced(&module, &model);
                 return Err(wrap(Fail::new(
                     "section-placement",
